@@ -552,7 +552,9 @@ func raceSite(stderr string) string {
 			continue
 		}
 		for _, l := range lines[1:] {
-			if s := sutFrame(l); s != "" {
+			// the first frame owned by gqlgen or generated code (not a dependency): the
+			// dependency frames vary with timing, the gqlgen caller does not
+			if s := sutFrame(l); s != "" && (strings.HasPrefix(s, "gqlgen/") || strings.HasPrefix(s, "probe")) {
 				sites = append(sites, s)
 				break
 			}
@@ -564,6 +566,9 @@ func raceSite(stderr string) string {
 	sort.Strings(sites)
 	if len(sites) == 0 {
 		return "unknown"
+	}
+	if len(sites) == 2 && sites[0] == sites[1] {
+		sites = sites[:1]
 	}
 	return strings.Join(sites, "+")
 }
@@ -660,18 +665,24 @@ func (c *ctx) confirm(r *runResult, processLevel bool) (string, error) {
 			cand.Minimised = t
 			p := filepath.Join(c.scratch, "cand.json")
 			writeJSON(p, &cand)
-			_, stderr, err := c.single("replay", p, nil)
-			if err == nil {
-				return false
+			// whether the race detector sees a given pair of accesses depends on real
+			// thread timing: a candidate counts as reproducing if any of a few attempts does
+			for attempt := 0; attempt < 6; attempt++ {
+				_, stderr, err := c.single("replay", p, map[string]string{"GOMAXPROCS": "8"})
+				if err == nil {
+					continue
+				}
+				if v := processViolation(c.spec.ID, stderr, err); v != nil && v.fingerprint() == fp {
+					return true
+				}
 			}
-			v := processViolation(c.spec.ID, stderr, err)
-			return v != nil && v.fingerprint() == fp
+			return false
 		}
 		if !test(rf.Tape) {
 			return "", fmt.Errorf("process-level violation %s did not reproduce from its tape", fp)
 		}
 		cur := rf.Tape
-		budget := 60
+		budget := 40
 		start := time.Now()
 		// truncate tail
 		for n := len(cur) / 2; n >= 1 && budget > 0 && time.Since(start) < 3*time.Minute; n /= 2 {
